@@ -65,10 +65,12 @@ func (h *History) Add(form Form) {
 	if h.max <= len(h.forms) {
 		h.forms = h.forms[len(h.forms)-h.limit:]
 		tmp := fmt.Sprintf("%s.tmp", h.filename)
+		verifCrash("history.compact.before-open")
 		f, err := os.OpenFile(tmp, os.O_APPEND|os.O_CREATE|os.O_WRONLY, 0644)
 		if err != nil {
 			panic(err)
 		}
+		verifCrash("history.compact.after-open")
 		defer func() { _ = f.Close() }()
 		for _, frm := range h.forms {
 			// Write each line separately to avoid excessive memory use if the
@@ -76,34 +78,43 @@ func (h *History) Add(form Form) {
 			if _, err = f.Write(frm.TabAppend(nil)); err != nil {
 				panic(err)
 			}
+			verifCrash("history.compact.after-write")
 		}
 		_ = f.Close()
+		verifCrash("history.compact.before-rename")
 		if err := os.Rename(tmp, h.filename); err != nil {
 			panic(err)
 		}
+		verifCrash("history.compact.after-rename")
 	} else {
+		verifCrash("history.add.before-open")
 		f, err := os.OpenFile(h.filename, os.O_APPEND|os.O_CREATE|os.O_WRONLY, 0644)
 		defer func() { _ = f.Close() }()
+		verifCrash("history.add.after-open")
 		if err == nil {
 			_, err = f.Write(form.TabAppend(nil))
 		}
 		if err != nil {
 			panic(err)
 		}
+		verifCrash("history.add.after-write")
 	}
 }
 
 // Clear the stash entries in the range specified..
 func (h *History) Clear(start, end int) {
 	h.clear(start, end)
+	verifCrash("history.clear.before-open")
 	f, err := os.OpenFile(h.filename, os.O_TRUNC|os.O_APPEND|os.O_CREATE|os.O_WRONLY, 0644)
 	if err != nil {
 		panic(err)
 	}
+	verifCrash("history.clear.after-open")
 	defer func() { _ = f.Close() }()
 	for _, frm := range h.forms {
 		if _, err = f.Write(frm.TabAppend(nil)); err != nil {
 			panic(err)
 		}
+		verifCrash("history.clear.after-write")
 	}
 }
